@@ -802,17 +802,34 @@ def modifyRefCheck (stored : InstRec) (pv : PropV) : M Unit :=
   | .ref q => if valueChanged stored pv then endpointOk q else pure ()
   | _ => pure ()
 
-/-- mirrors _instancewriteprovider.py: InstanceWriteProvider.ModifyInstance -/
+/-- delete the copy of the instance in one namespace if it is (still) there -/
+def instDeleteIfPresentR (k : PKey) (r : NsRec) : Except PyExc NsRec :=
+  if hasInst r k then instDeleteR k r else .ok r
+
+/-- the write phase of ModifyInstance for an association: update in all (new) namespaces, or in the request
+    namespace only -/
+def modifyWrite (ns : Name) (stored rec' : InstRec) (others : List Name) : M Unit :=
+  if !others.isEmpty then
+    -- the namespace appended last is the one of the STORED path (`original_instance.path.namespace`)
+    modifyMulti (others ++ [stored.path.ns.getD ns]) rec'
+  else inNs ns (instUpdateR rec')
+
+/-- "Remove the copies of the instance in the namespaces that its reference properties no longer name" -/
+def dropStale (stored : InstRec) (stale : List Name) : M Unit :=
+  forM_ (fun n => inNs n (instDeleteIfPresentR { stored.key with ns := lower n })) stale
+
+/-- mirrors _instancewriteprovider.py: InstanceWriteProvider.ModifyInstance (after the fixes: the copies in
+    namespaces that the modified reference properties no longer name are removed, and the stores of those
+    namespaces are looked up - KeyError - before anything is modified) -/
 def modifyProvider (ns : Name) (cc : ClassRec) (stored : InstRec) (props : List PropV) : M Unit :=
   let rec' : InstRec := { stored with props := updateProps stored.props props }
-  if isAssoc cc then do
-    forM_ (modifyRefCheck stored) (refProps props)
-    let others ← liftE (multiNs rec'.props ns)
-    if !others.isEmpty then
-      -- the namespace appended last is the one of the STORED path (`original_instance.path.namespace`)
-      let sns := stored.path.ns.getD ns
-      modifyMulti (others ++ [sns]) rec'
-    else inNs ns (instUpdateR rec')
+  if isAssoc cc then
+    forM_ (modifyRefCheck stored) (refProps props) >>= fun _ =>
+    liftE (multiNs stored.props ns) >>= fun old =>
+    liftE (multiNs rec'.props ns) >>= fun others =>
+    getS >>= fun s =>
+      if (old.filter (fun n => !nmem n others)).any (fun n => (findNs s n).isNone) then raise .keyError
+      else modifyWrite ns stored rec' others >>= fun _ => dropStale stored (old.filter (fun n => !nmem n others))
   else inNs ns (instUpdateR rec')
 
 /-- `property_list`: the names of PropertyList without (case-insensitive) duplicates, first occurrence kept -/
@@ -877,10 +894,6 @@ def modifyInstance (ns : Name) (p : Path) (i0 : Inst) (pl : Option (List Name) :
               if triggered u.rejModify (keyOf p.keys u.trigger) then raise u.exc
               else modifyProvider ns cc stored (adjustNames cc props)
             | none => modifyProvider ns cc stored (adjustNames cc props)
-
-/-- delete the copy of the instance in one namespace if it is (still) there -/
-def instDeleteIfPresentR (k : PKey) (r : NsRec) : Except PyExc NsRec :=
-  if hasInst r k then instDeleteR k r else .ok r
 
 /-- the multi-namespace branch of InstanceWriteProvider.DeleteInstance (after the fixes: the instance stores of
     ALL namespaces are looked up first - KeyError for a namespace that does not exist - and a copy that is already
